@@ -46,7 +46,8 @@ def fill(add, pending):
         'tokens; 2.0 and 3.0; single and multi-grid; str and bytes API) EVERY truncation offset of small documents is delivered, plus '
         'seeded lost/duplicated/reordered/flipped/inserted/spliced/CRLF/charset/BOM/NUL/version-skew deliveries and placed faults '
         'whose post-condition is guaranteed-broken (must be rejected). Each delivery is judged: outcome class, exception type, '
-        'line/col inside the text, termination on a deterministic clock, purity, and behaviour under a faulted stdout.',
+        'line/col inside the text, termination on a deterministic clock, purity, behaviour under a faulted stdout, and a later grid of a '
+        'text being held to the same header rules as the same grid delivered alone.',
         'Trusted: stub peer annotations (which spans are strings/brackets/names); the clock (count of pyparsing match attempts, budget '
         '200 x the fault-free parse); a delivered text that still parses is not compared with the base grid.',
         'deterministic simulation: writer->channel->reader pipeline with enumerated truncations and seeded channel/stdout faults',
